@@ -40,6 +40,32 @@ fn lib(p: &Proposal, expired: bool) -> Option<(bool, bool, Status)> {
     catch_unwind(AssertUnwindSafe(|| (p.is_passed(&b), p.is_rejected(&b), p.current_status(&b)))).ok()
 }
 
+/// Other clocks under which the same tally must get the same verdict: the decision may depend on the block
+/// only through "has the voting period ended" (height >= AtHeight, time >= AtTime in nanoseconds, Never
+/// never ends). (label, expiration, block height, block time in ns, ended)
+fn clocks() -> Vec<(&'static str, Expiration, u64, u64, bool)> {
+    use cosmwasm_std::Timestamp;
+    const T: u64 = 1_700_000_000_000_000_000; // a whole second
+    vec![
+        ("AtHeight(100)@99", Expiration::AtHeight(100), 99, T, false),
+        ("AtHeight(100)@100", Expiration::AtHeight(100), 100, T, true),
+        ("AtTime(T+0.5s)@T+0.1s", Expiration::AtTime(Timestamp::from_nanos(T + 500_000_000)), 50, T + 100_000_000, false),
+        ("AtTime(T+0.5s)@T+0.5s", Expiration::AtTime(Timestamp::from_nanos(T + 500_000_000)), 50, T + 500_000_000, true),
+        ("AtTime(T+0.5s)@T+0.9s", Expiration::AtTime(Timestamp::from_nanos(T + 500_000_000)), 50, T + 900_000_000, true),
+        ("AtTime(T+1s)@T+0.999999999s", Expiration::AtTime(Timestamp::from_nanos(T + 1_000_000_000)), 500, T + 999_999_999, false),
+        ("Never@h=10^9", Expiration::Never {}, 1_000_000_000, T * 2, false),
+    ]
+}
+
+fn lib_clock(p: &Proposal, exp: &Expiration, h: u64, ns: u64) -> Option<(bool, bool, Status)> {
+    let mut q = p.clone();
+    q.expires = *exp;
+    let mut b = mock_env().block;
+    b.height = h;
+    b.time = cosmwasm_std::Timestamp::from_nanos(ns);
+    catch_unwind(AssertUnwindSafe(|| (q.is_passed(&b), q.is_rejected(&b), q.current_status(&b)))).ok()
+}
+
 /// rounding boundaries reachable with weights <= n, with `places` decimals, within [lo, 1]
 fn boundary_fractions(n: u64, places: u32, lo_num: u64, lo_den: u64) -> BTreeSet<u128> {
     let unit: u128 = 10u128.pow(18 - places);
@@ -154,6 +180,24 @@ fn judge(
             }
             if rej {
                 counters[1] += 1
+            }
+        }
+    }
+    // ---- the verdict depends on the clock only through "voting has ended"
+    {
+        let base = [lib(&p, false), lib(&p, true)];
+        for (label, exp, h, ns, ended) in clocks() {
+            let got = lib_clock(&p, &exp, h, ns);
+            if got != base[ended as usize] {
+                viol(
+                    out,
+                    "C04.decision_depends_only_on_whether_voting_ended",
+                    th,
+                    total,
+                    t,
+                    ended,
+                    format!("with {label} (voting {}) the library says {:?}, with AtHeight(100) at height {} it says {:?}", if ended { "ended" } else { "still open" }, got, if ended { 150 } else { 50 }, base[ended as usize]),
+                );
             }
         }
     }
